@@ -715,6 +715,8 @@ def r_bounded_read(ctx):
                     ok = bool(tup) and tup[0][1] == (("f", H, "root_directory_offset"), ("f", H, "root_directory_length")) and ("f", H, "leaf_directories_offset") in args
                     obs.append(Ob("R-BOUNDED-READ", fn, "%s: walks from (root_directory_offset, root_directory_length), leaf base leaf_directories_offset" % name, ok,
                                   "args = %s" % ", ".join(tstr(x)[:60] for x in args[1:]), e.loc()))
+                    obs.append(Ob("R-WALK", fn, "%s: directories are decoded with header.internal_compression" % name, ("f", H, "internal_compression") in args,
+                                  "args = %s" % ", ".join(tstr(x)[:40] for x in args[1:]), e.loc(), only=("C01", "C03", "C04", "C11")))
                     continue
                 obs.append(Ob("R-BOUNDED-READ", fn, "%s: bounded" % name, cls[0] in ("fixed", "none"), "read class %s" % (cls,), e.loc()))
     # the walker itself: seek(Start(dir_offset)) then a decoder bounded by dir_length
